@@ -1574,19 +1574,6 @@ fn forward_device_data(
     }
 
     let broker_topic_aliases = &mut connection.broker_topic_aliases;
-    let mut topic_alias = broker_topic_aliases
-        .as_ref()
-        .and_then(|aliases| aliases.get_alias(&request.filter));
-
-    let topic_alias_already_exists = topic_alias.is_some();
-
-    // if topic alias doesn't exists, try creating new one!
-    if !topic_alias_already_exists {
-        topic_alias = broker_topic_aliases
-            .as_mut()
-            .and_then(|broker_aliases| broker_aliases.set_new_alias(&request.filter))
-    }
-
     let subscription_id = connection.subscription_ids.get(&request.filter);
 
     // Fill and notify device data
@@ -1594,6 +1581,21 @@ fn forward_device_data(
         .into_iter()
         .map(|((mut publish, mut properties), offset)| {
             publish.qos = protocol::qos(qos).unwrap();
+
+            // An alias stands for one topic: a filter with wildcards matches several,
+            // so aliases are looked up by the topic of each publish
+            let mut topic_alias = None;
+            let mut topic_alias_already_exists = false;
+            if let Some(aliases) = broker_topic_aliases.as_mut() {
+                if let Ok(topic) = std::str::from_utf8(&publish.topic) {
+                    topic_alias = aliases.get_alias(topic);
+                    topic_alias_already_exists = topic_alias.is_some();
+                    // if topic alias doesn't exists, try creating new one!
+                    if !topic_alias_already_exists {
+                        topic_alias = aliases.set_new_alias(topic);
+                    }
+                }
+            }
 
             // if there is some topic alias to use, set it in publish properties
             if topic_alias.is_some() {
